@@ -280,7 +280,7 @@ class Equiv:
                  ["numpy.sqrt", "math.sqrt", "numpy.square", "numpy.negative", "numpy.mean", "numpy.maximum", "numpy.minimum", "numpy.power", "numpy.log2", "numpy.log10", "numpy.dot"]}
         cv, sv = vocab(self.code_prepped), vocab(self.spec_prepped)
         self.code_vocab = cv | vocab(strip_all(self.code_raw))
-        known |= {("m", m) for m in ("astype", "sum", "mean")} | {("m", m[1:]) for m in self.modelled if m.startswith(".")}
+        known |= {("m", m) for m in ("astype", "sum", "mean")} | {("m", m[1:]) for m in self.modelled if m.startswith(".")} | {("shape", m[6:]) for m in self.modelled if m.startswith("shape:")}
         base = {tuple(v) for v in BASELINE_VOCAB.get(self.vocab_key, [])}
         extra = {v for v in cv - sv - known - base if not (v[0] == "f" and v[1].startswith("builtins.") and v[1] in _PURE_BUILTINS)}
         return sorted(extra)
@@ -808,6 +808,11 @@ def small_rewrites(t):
             a = strip(t[2][0] if t[2] else t[3][0][1])
             if head(a) == "call" and strip(a[1]) in (("glob", "builtins.set"), ("glob", "builtins.list"), ("glob", "builtins.tuple"), ("glob", "builtins.frozenset")) and len(a[2]) == 1 and not a[3]:
                 return ("call", t[1], (a[2][0],), ()) if t[2] else ("call", t[1], (), (("values", a[2][0]),))
+        if head(f) == "attr" and f[2] == "issuperset" and len(t[2]) == 1 and not t[3]:
+            # S.issuperset(xs) == all(x in S for x in xs)
+            cid = ("#issuperset", repr(t[2][0])[:40])
+            ce = ("citer", cid, 0, t[2][0])
+            return ("call", ("glob", "builtins.all"), (("comp", "list", ("cmp", "in", ce, f[1]), ((ce, ()),), cid),), ())
         if head(f) == "attr" and f[2] == "isdisjoint" and len(t[2]) == 1 and not t[3]:
             a = strip(t[2][0])
             if head(a) == "call" and strip(a[1]) == ("glob", "builtins.set") and len(a[2]) == 1 and not a[3]:
